@@ -118,8 +118,8 @@ let () =
              | Ok v ->
                  (match ce_dscore v (nat_of_int p) with
                   | Ok d -> let t = int_of_nat (ce_scale v thr) in let d = int_of_nat d in
-                      if d < t then Printf.sprintf " c08-prefilter-not-conservative(scale=%d,dscore=%d,factor=%d)" t d
-                          (int_bits_of_f32 v.ce_dm.d_factor)
+                      if d < t then Printf.sprintf " c08-prefilter-not-conservative(scale=%d,dscore=%d,factor=%d,wc=%b)" t d
+                          (int_bits_of_f32 v.ce_dm.d_factor) (ce_wc (nat_of_int 5) v)
                       else ""
                   | _ -> "")
              | _ -> "") in
